@@ -18,10 +18,10 @@ const (
 	Hour        = time.Hour
 )
 
-func NewTimer(d Duration) *Timer             { return time.NewTimer(d) }
-func AfterFunc(d Duration, f func()) *Timer  { return time.AfterFunc(d, f) }
-func Now() Time                              { return time.Now() }
-func Since(t Time) Duration                  { return time.Since(t) }
-func After(d Duration) <-chan Time           { return time.After(d) }
-func Sleep(d Duration)                       { time.Sleep(d) }
-func Unix(sec, nsec int64) Time              { return time.Unix(sec, nsec) }
+func NewTimer(d Duration) *Timer            { return time.NewTimer(d) }
+func AfterFunc(d Duration, f func()) *Timer { return time.AfterFunc(d, f) }
+func Now() Time                             { return time.Now() }
+func Since(t Time) Duration                 { return time.Since(t) }
+func After(d Duration) <-chan Time          { return time.After(d) }
+func Sleep(d Duration)                      { time.Sleep(d) }
+func Unix(sec, nsec int64) Time             { return time.Unix(sec, nsec) }
